@@ -12,7 +12,7 @@ Definition group_of (d : ddesc) (t : Z) : option (list (Z * (Z * Z))) :=
 (* what the allocateSet must list for (uid, type) on [node] *)
 Definition dexpect (ds : list ddesc) (life : Z -> Z) (live : bool) (node uid t : Z) : option (list (Z * (Z * Z))) :=
   let d := ddesc_of ds uid in
-  if ((life uid =? 2) || (live && (life uid =? 1))) && (dd_node d =? node) then group_of d t else None.
+  if (is_bound (life uid) || (live && (life uid =? 1))) && (dd_node d =? node) then group_of d t else None.
 
 Definition eq_opt_numa (a b : option (list (Z * (Z * Z)))) : bool :=
   match a, b with
@@ -71,9 +71,14 @@ Definition dsnapshot_code (c : dcase) (life : Z -> Z) (live : bool) (s : list ds
 Definition dstep_code (c : dcase) (life : Z -> Z) (LR : list dsnap * list dsnap) : Z :=
   let kl := dsnapshot_code c life true (fst LR) in
   if negb (kl =? 0) then (if kl =? 9 then 9 else 6) else dsnapshot_code c life false (snd LR).
-Definition prop_dev (c : dcase) (obs : list (list dsnap * list dsnap)) : Z :=
+(* 10: the reserved amount a Reservation's reserve pod holds (ResizePod) / the one persisted at
+   PreBindReservation is not the sum of the allocated per-minor resources (recomputed from the case) *)
+Definition dobs_code (c : dcase) (life : Z -> Z) (o : (list dsnap * list dsnap) * list Z) : Z :=
+  let k := dstep_code c life (fst o) in
+  if negb (k =? 0) then k else if eq_listZ (snd o) (dpersist (d_descs c) life) then 0 else 10.
+Definition prop_dev (c : dcase) (obs : list ((list dsnap * list dsnap) * list Z)) : Z :=
   if negb (Nat.eqb (length obs) (length (d_ops c))) then 9
-  else first_nz (map (fun lo => dstep_code c (fst lo) (snd lo)) (combine (dlives c dlive_init (d_ops c)) obs)).
+  else first_nz (map (fun lo => dobs_code c (fst lo) (snd lo)) (combine (dlives c dlive_init (d_ops c)) obs)).
 
 Definition group_ok (g : Z * list (Z * (Z * Z))) : bool :=
   ((fst g =? 1) || (fst g =? 2))
@@ -90,6 +95,6 @@ Definition dcase_ok (c : dcase) : bool :=
   forallb ddesc_ok (d_descs c) && (0 <=? d_nodes c) && (0 <=? d_minors c) && (0 <=? d_nvf c) && (d_nvf c <=? 100).
 
 Definition nontrivial_dev (c : dcase) : bool :=
-  existsb (fun life => existsb (fun u => (life u =? 2) && negb (is_nil (dd_groups (ddesc_of (d_descs c) u))))
+  existsb (fun life => existsb (fun u => is_bound (life u) && negb (is_nil (dd_groups (ddesc_of (d_descs c) u))))
                                (zrange 1 (length (d_descs c))))
           (dlives c dlive_init (d_ops c)).
